@@ -22,7 +22,7 @@ MUTATORS = ("transform", "scale", "reduce_to_ids", "downsample",
             "motion_filter", "time_range", "align", "align_origin", "project")
 DERIVERS = ("deepcopy", "associate", "split_time", "split_dist", "split_speed",
             "merge", "df_roundtrip", "tum_roundtrip", "kitti_roundtrip",
-            "rewrap")
+            "rewrap", "shallow_copy")
 OBSERVERS = ("read", "compute")
 
 MAY_REFUSE = {
@@ -295,6 +295,25 @@ def execute_step(m: Machine, step, prop_of):
                                     "align-not-least-squares-over-requested-"
                                     "poses", obj=e.uid, op=op, n=nn,
                                     max_abs_dev=dev)
+                if not step["only_scale"]:
+                    # optimality, measured where a large common offset of the
+                    # coordinates (UTM, ECEF) does not hide it: the residual
+                    # over the requested poses against the optimum's
+                    refk = ref.model.p[:k].astype(float)
+                    ext = float(np.sqrt(np.mean(np.sum(
+                        (refk - refk.mean(axis=0))**2, axis=1))))
+                    r_got = float(np.sqrt(np.mean(np.sum(
+                        (got[:k] - refk)**2, axis=1))))
+                    r_opt = float(np.sqrt(np.mean(np.sum(
+                        (expect[:k] - refk)**2, axis=1))))
+                    if r_got > r_opt * (1 + 1e-7) + 1e-9 * max(ext, 1e-3) + (
+                            1e-13 * scale_):
+                        raise Violation(
+                            prop_of["receiver"],
+                            "align-not-least-squares-over-requested-poses",
+                            obj=e.uid, op=op, n=nn, residual=r_got,
+                            optimum=r_opt, extent=ext)
+                    m.probe_hit("align_residual_checked")
                 m.probe_hit("align_checked_against_independent_umeyama")
             if not is_rotation(r_a, 1e-9):
                 raise Violation(prop_of["receiver"], "align-returned-no-rotation",
@@ -428,6 +447,12 @@ def execute_step(m: Machine, step, prop_of):
             mm = TrajModel(R, p, allt[order])
             mm.beta = max(x.model.beta for x in ents) + 4e-16
             new.append(add_entry(m, step["uid"] + ".0", o, mm, "merge"))
+        elif op == "shallow_copy":
+            # "copies" of a trajectory: copy.copy() as well as deepcopy()
+            c = copy.copy(e.obj)
+            new.append(add_entry(m, step["uid"] + ".0", c, e.model.copy(),
+                                 "shallow_copy"))
+            m.probe_hit("shallow_copy_made")
         elif op == "rewrap":
             # a second object built from the first one's pose list, the way
             # contrib/kitti_poses_and_timestamps_to_trajectory.py turns a path
@@ -1093,6 +1118,9 @@ def gen_object_spec(rng, small=True):
         profile["flat"] = rng.choice([1, 2, 3])  # exactly planar positions
     if rng.random() < 0.2:
         profile["qround"] = rng.choice([6, 7, 7, 9])
+    # (integer-typed time stamps are not generated: the unchanged tree's
+    # own association - `stamps_2 += offset_2` in evo.core.sync - refuses
+    # them, so they are outside the input domain; DESIGN 9.24)
     spec = {"ctor": rng.choice(["se3", "xyzquat", "se3", "xyzquat", "all",
                                 "se3_nd"]),
             "stamped": rng.random() < 0.7, "n": n,
